@@ -60,6 +60,19 @@ CHECKS = {
             "Value equality treats nil and empty slices as equal; the mixed-CID discard of UnpackDatagram13 is exempted from the partition law "
             "(RFC 9147 Section 4); RecordLayer.Unmarshal is tested under its one-record contract.",
             "DESIGN.md §4 C18"),
+    "C10": ("exploration",
+            "runtime differential monitoring against an independent reference implementation of the RFC formulas, in both "
+            "directions, plus passive decoding of live sessions' complete wire logs from the key log / key schedule",
+            "(A) PRNG draws: PRF family, key block, every one of the 17 DTLS 1.2 suites x {plain, tls12_cid} x {client->server, "
+            "server->client} with library-seals/reference-opens AND reference-seals/library-opens (edge sequence numbers, epochs, "
+            "CID lengths, padding, payload sizes), HKDF-Expand-Label with the dtls13 prefix, DTLS 1.3 record protection and "
+            "sequence-number masking for the three AEADs. (B) live sessions for every suite/layout (full, resumed, HRR, key updates): "
+            "every emitted record must decrypt under the reference; transcript, verify_data, (extended) master secret, RFC 5705 / "
+            "RFC 8446 exporter, DTLS 1.3 key schedule from the ECDHE secret, traffic-update chain and both key-log lines are "
+            "recomputed from the wire and compared. Held = no disagreement on the draws and sessions observed.",
+            "The reference (internal/zzverifref: std + x/crypto primitives, own CCM/PRF/HKDF/key schedule) is validated against RFC "
+            "5869, RFC 8448 and RFC 3610 vectors; DTLS 1.3 secrets are read from the endpoint's key schedule (no 1.3 key log exists).",
+            "DESIGN.md §4 C10"),
 }
 
 NOT_YET = "monitor not built yet in this session (see DESIGN.md for the planned design)"
